@@ -20,7 +20,8 @@ type Features struct {
 	Pointers     bool
 	RuntimeArray bool
 	InexactSinks bool                     // inexact float builtins / division stored into sinks
-	Hostile      bool                     // C15: unguarded indices / divisors taken from inputs
+	Hostile      bool                     // C15: hostile float operands for conversions; single invocation
+	HostileIdx   bool                     // C15: unguarded (possibly out-of-range) indices
 	Off          func(tag string) bool    // construct excluded (known finding)
 	ConstOK      func(e Expr) bool        // strict constant-expression check (set by wref to avoid an import cycle)
 }
@@ -78,6 +79,7 @@ type gen struct {
 	outFz     *Var
 	outFzSlot func() Expr
 	outAt     *Var
+	hostileF  *Var // C15: read-only buffer of hostile floats, used only as conversion operands
 	atomOp    map[int]string // multi-invocation: the one (commutative) operation used on each atomic location
 	noNeg     bool // literals must be non-negative (guard for tag private-init.unary)
 	noMustUse bool // no calls of @must_use functions (guard for tag must_use.call-arg)
@@ -335,12 +337,12 @@ func (g *gen) indexExpr(base Expr, n int, depth int) Expr {
 	if n == 0 {
 		g.class("index:runtime")
 		al := &Builtin{Name: "arrayLength", Args: []Expr{&AddrOf{X: base, Space: "storage"}}, T: TU32}
-		if g.f.Hostile {
+		if g.f.HostileIdx {
 			return g.expr(TU32, depth-1)
 		}
 		return &Binary{Op: "%", L: g.expr(TU32, depth-1), R: al, T: TU32}
 	}
-	if g.f.Hostile && g.chance(50, "hostileIdx") {
+	if g.f.HostileIdx && g.chance(50, "hostileIdx") {
 		g.class("index:hostile")
 		if g.chance(50, "hidxs") {
 			return g.expr(TI32, depth-1)
@@ -547,7 +549,16 @@ func (g *gen) runtimeLeaf(k Kind) Expr {
 				return &Construct{T: Scalar(k), Args: []Expr{g.buildPath(c2[0], 0, false)}}
 			}
 		}
-		panic("no runtime leaf")
+		desc := ""
+		for _, v := range g.inputs {
+			desc += " " + v.Name + ":" + v.T.String()
+			if v.T.K == TStruct {
+				for _, m := range v.T.St.Members {
+					desc += " ." + m.Name + ":" + m.T.String()
+				}
+			}
+		}
+		panic("no runtime leaf; inputs:" + desc)
 	}
 	return g.buildPath(cands[g.intn(len(cands), "rl")], 0, false)
 }
@@ -648,6 +659,13 @@ func IsConstExpr(e Expr) bool {
 // is replaced by a run-time value through fix.
 func (g *gen) guardConst(e Expr, fix func()) Expr {
 	if !IsConstExpr(e) {
+		// (known finding C05-17: naga folds through lets bound to module constants, but only + - * /
+		// are implemented there; every other binary operator folds to a zero literal)
+		if b, ok := e.(*Binary); ok && b.Op != "+" && b.Op != "-" && b.Op != "*" && b.Op != "/" &&
+			g.inConst == 0 && len(g.inputs) > 0 && foldable(e) && refsNamedConst(e) && g.f.off("const-fold.through-let") {
+			fix()
+			g.class("fold-through-let:made-runtime")
+		}
 		return e
 	}
 	if g.f.ConstOK == nil || g.f.ConstOK(e) {
@@ -660,4 +678,22 @@ func (g *gen) guardConst(e Expr, fix func()) Expr {
 	fix()
 	g.class("constexpr:made-runtime")
 	return e
+}
+
+// refsNamedConst reports whether e reaches a module-scope const, directly or
+// through lets.
+func refsNamedConst(e Expr) bool {
+	found := false
+	WalkExpr(e, func(x Expr) bool {
+		if r, ok := x.(*VarRef); ok {
+			switch {
+			case r.V.Kind == VConst:
+				found = true
+			case r.V.Kind == VLet && r.V.Init != nil && refsNamedConst(r.V.Init):
+				found = true
+			}
+		}
+		return !found
+	})
+	return found
 }
